@@ -156,23 +156,65 @@ theorem spam_th_other (n : Nat) (s : Sys) (t t2 : Nat) (hne : t2 ≠ t) :
   | zero => rfl
   | succ n ih => show (Sys.spamOnce _ t).th t2 = _; rw [Sys.spamOnce_th_other _ _ _ hne, ih]
 
-theorem Sys.finishCycle_th (s : Sys) (kept : List (Nat × Ring Cmd)) (buf : List Cmd) (t2 : Nat) :
-    (s.finishCycle kept buf).1.th t2 = s.th t2 := rfl
+theorem Sys.finishCycle_th (s : Sys) (kept : List (Nat × Ring Cmd)) (buf buf2 : List Cmd) (t2 : Nat) :
+    (s.finishCycle kept buf buf2).1.th t2 = s.th t2 := rfl
 
-theorem Sys.cycStep_th (s : Sys) (t2 : Nat) : s.cycStep.1.th t2 = s.th t2 := by
+theorem CycState.afterFirst_cases (cs : CycState) :
+    cs.afterFirst = ({ cs with phase := .atReport }, "report") ∨
+    cs.afterFirst = ({ cs with phase := .atRx2, todo2 := cs.kept.map (·.1) }, "rx2") := by
+  unfold CycState.afterFirst
+  split
+  · exact .inl rfl
+  · exact .inr rfl
+
+/-- a collector step touches nothing but the collector's own state -/
+theorem Sys.cycStep_threads (s : Sys) : s.cycStep.1.threads = s.threads := by
   unfold Sys.cycStep
   split
   · rfl
   · split
     · rfl
+    · split
+      · rfl
+      · dsimp only
+        split <;> rfl
     · rfl
     · rfl
-    · simp only
+    · dsimp only
       split
       · split <;> rfl
       · split
         · split <;> rfl
         · rfl
+
+/-- a collector step answers with a report, a phase name, or a refusal -/
+theorem Sys.cycStep_obs (s : Sys) :
+    (∃ r, s.cycStep.2 = .report r) ∨ (∃ p, s.cycStep.2 = .phase p) ∨ (∃ w, s.cycStep.2 = .badOp w) := by
+  have leaf_r : ∀ (S : Sys) r, (∃ r', (S, Obs.report r).2 = .report r') ∨ (∃ p, (S, Obs.report r).2 = .phase p) ∨
+      (∃ w, (S, Obs.report r).2 = .badOp w) := fun _ r => .inl ⟨r, rfl⟩
+  have leaf_p : ∀ (S : Sys) p, (∃ r', (S, Obs.phase p).2 = .report r') ∨ (∃ p', (S, Obs.phase p).2 = .phase p') ∨
+      (∃ w, (S, Obs.phase p).2 = .badOp w) := fun _ p => .inr (.inl ⟨p, rfl⟩)
+  unfold Sys.cycStep
+  split
+  · exact .inr (.inr ⟨_, rfl⟩)
+  · split
+    · exact leaf_r _ _
+    · split
+      · exact leaf_p _ _
+      · dsimp only
+        split <;> exact leaf_p _ _
+    · exact leaf_p _ _
+    · exact leaf_p _ _
+    · dsimp only
+      split
+      · split <;> exact leaf_p _ _
+      · split
+        · split <;> exact leaf_p _ _
+        · exact leaf_p _ _
+
+theorem Sys.cycStep_th (s : Sys) (t2 : Nat) : s.cycStep.1.th t2 = s.th t2 := by
+  unfold Sys.th
+  rw [Sys.cycStep_threads]
 
 theorem Sys.cycBegin_th (s : Sys) (t2 : Nat) : s.cycBegin.1.th t2 = s.th t2 := by
   unfold Sys.cycBegin
